@@ -30,10 +30,16 @@ type probe struct {
 
 	steps, budget uint64
 	exceeded      bool
-	maxDepth      int
-	nframes       int
-	nreverts      int
-	ndumps        int
+	// steps executed inside a UTXO change-rate query (EVM.GetUTXOChangeRate: a STATICCALL from the zero address
+	// that the interpreter issues itself after a frame that executed ISSUE). They are counted apart from the
+	// steps the program pays for, so that work done on the query's own gas gets its own violation key.
+	rqSteps, rqBudget uint64
+	rqDepth           int
+	rqExceeded        bool
+	maxDepth          int
+	nframes           int
+	nreverts          int
+	ndumps            int
 
 	curOp         evm.OpCode // the operation being executed (the last one traced)
 	curSet        bool
@@ -59,8 +65,8 @@ type pendingTrim struct {
 	opener string
 }
 
-func newProbe(st, ref *state.StateDB, budget uint64) *probe {
-	return &probe{StateDB: st, ref: ref, failed: map[int]string{}, lastOp: map[int]evm.OpCode{}, budget: budget}
+func newProbe(st, ref *state.StateDB, budget, rqBudget uint64) *probe {
+	return &probe{StateDB: st, ref: ref, failed: map[int]string{}, lastOp: map[int]evm.OpCode{}, budget: budget, rqBudget: rqBudget}
 }
 
 func (p *probe) violation(key, what string) {
@@ -216,10 +222,26 @@ func (p *probe) CaptureEnd(output []byte, gasUsed uint64, t time.Duration, err e
 }
 
 func (p *probe) CaptureState(env *evm.EVM, pc uint64, op evm.OpCode, gas, cost uint64, memory *evm.Memory, stack *evm.Stack, contract *evm.Contract, depth int, err error) error {
-	p.steps++
-	if p.steps > p.budget && !p.exceeded {
-		p.exceeded = true
-		env.Cancel()
+	// inside a rate query? (the top-level caller is never the zero address, and no code lives at it)
+	if contract.CallerAddress == (common.Address{}) {
+		if p.rqDepth == 0 || depth < p.rqDepth {
+			p.rqDepth = depth
+		}
+	} else if p.rqDepth != 0 && depth <= p.rqDepth {
+		p.rqDepth = 0
+	}
+	if p.rqDepth != 0 && depth >= p.rqDepth {
+		p.rqSteps++
+		if p.rqSteps > p.rqBudget && !p.rqExceeded {
+			p.rqExceeded = true
+			env.Cancel()
+		}
+	} else {
+		p.steps++
+		if p.steps > p.budget && !p.exceeded {
+			p.exceeded = true
+			env.Cancel()
+		}
 	}
 	if err != nil {
 		// deferred report: the operation failed validation / gas charging before it was logged
